@@ -1530,4 +1530,72 @@ theorem matrix_sum (n : Nat) (sel : List Prec) (hn : ∀ p ∈ sel, p.exp < n) :
   matrix_sum_aux n (rowKeys sel) (nodup_nub _) sel
     (fun p hp => ⟨(mem_rowKeys sel _).mpr ⟨p, hp, rfl⟩, hn p hp⟩)
 
+
+
+/-! ### stage B under relabelling and under flipping the orientation of a pair -/
+
+/-- the same equation with the two samples exchanged: inverse ratios -/
+def flipEq (q : PairEq) : PairEq :=
+  { i := q.j, j := q.i, ratio := q.ratio⁻¹, w := q.w, sratio := q.sratio⁻¹ }
+
+def relabelEq (σ : Nat → Nat) (q : PairEq) : PairEq := { q with i := σ q.i, j := σ q.j }
+
+theorem rhs_flipEq (q : PairEq) : rhs (flipEq q) = - rhs q := by
+  unfold rhs flipEq
+  simp only [Rat.cast_inv, Real.log_inv]
+  ring
+
+theorem rhs_relabelEq (σ : Nat → Nat) (q : PairEq) : rhs (relabelEq σ q) = rhs q := rfl
+
+/-- flipping an equation does not change its squared residual -/
+theorem residual_flipEq (q : PairEq) (y : Nat → ℝ) :
+    (y (flipEq q).i - y (flipEq q).j - rhs (flipEq q)) ^ 2 = (y q.i - y q.j - rhs q) ^ 2 := by
+  rw [rhs_flipEq]
+  show (y q.j - y q.i - -rhs q) ^ 2 = _
+  ring
+
+/-- the objective does not depend on the orientation in which each pair is written, as long as the
+    flipped pair carries the inverse ratios -/
+theorem objective_flip (eqs : List PairEq) (flip : PairEq → Bool) (sys : System) (y : Nat → ℝ) :
+    objective (eqs.map (fun q => if flip q then flipEq q else q)) sys y = objective eqs sys y := by
+  unfold objective
+  rw [List.map_map]
+  congr 3
+  apply List.map_congr_left
+  intro q _
+  simp only [Function.comp]
+  split
+  · exact residual_flipEq q y
+  · rfl
+
+/-- the objective does not depend on the order of the equations -/
+theorem objective_perm {eqs eqs' : List PairEq} (h : eqs.Perm eqs') (sys : System) (y : Nat → ℝ) :
+    objective eqs sys y = objective eqs' sys y := by
+  unfold objective
+  rw [(h.map _).sum_eq]
+
+def relabelSys (σ : Nat → Nat) (sys : System) : System :=
+  { pairs := sys.pairs.map (fun e => (σ e.1, σ e.2)), seen := sys.seen.map σ, zeroCols := sys.zeroCols.map σ }
+
+/-- relabelling the samples: the objective of the relabelled system at the relabelled vector is the
+    objective of the original system -/
+theorem objective_relabel (σ : Nat → Nat) (eqs : List PairEq) (sys : System) (y y' : Nat → ℝ)
+    (hy : ∀ s, y' (σ s) = y s) :
+    objective (eqs.map (relabelEq σ)) (relabelSys σ sys) y' = objective eqs sys y := by
+  unfold objective relabelSys
+  simp only [List.map_map]
+  congr 2
+  · congr 1
+    apply List.map_congr_left
+    intro q _
+    simp only [Function.comp, relabelEq, hy]
+    rfl
+  · congr 2
+    apply List.map_congr_left
+    intro s _
+    simp only [Function.comp, hy]
+  · apply List.map_congr_left
+    intro s _
+    simp only [Function.comp, hy]
+
 end PgFdr.C11
